@@ -301,6 +301,36 @@ def search_registry(ctx, shim, rows):
                          "the tag of its first table row (no tag when that row's tag is null)")
 
 
+
+SUBTAG_SUFFIXES = ["-419", "-001", "-029", "-150", "-ZZ", "-QM", "-Qaax", "-Qaax-419", "-ZZ-x-priv", "-419-x-a", "-1994", "-Qaax-ZZ-1994"]
+
+
+def search_bcp47(ctx, shim, rows):
+    """BCP 47 structure: region (2 letters / 3 digits), script (4 letters), variant and private-use subtags that no rule
+    of the registry mentions do not change which language the string names: tags(L + suffix) = tags(L)."""
+    first = {}
+    for l, t in rows:
+        first.setdefault(l, t)
+    langs = [l for l in first if "-" not in l]
+    reqs = [(l, sfx) for l in langs for sfx in SUBTAG_SUFFIXES]
+    base = dict(zip(langs, vlib.run_lines(shim, [f"tags - {hx(l)}" for l in langs])))
+    outs = vlib.run_lines(shim, [f"tags - {hx(l + sfx)}" for l, sfx in reqs])
+    bad = {}
+    lt = lambda o: (re.match(r"ok s:\S+ l:(\S+)", o) or [None, o])[1]
+    for (l, sfx), o in zip(reqs, outs):
+        if lt(o) != lt(base[l]):
+            bad.setdefault(sfx, []).append((l, o))
+    for sfx, lst in sorted(bad.items()):
+        l, o = lst[0]
+        ctx.violation(f"language \"{l}{sfx}\" does not select the tags of \"{l}\" ({len(lst)} languages with the subtags \"{sfx}\"): "
+                      f"got {o}, \"{l}\" alone gives {base[l]}",
+                      {"stage": "search", "stream": "bcp47-subtags", "request": f"tags - {hx(l + sfx)}", "language": l + sfx,
+                       "base_language": l, "expected": base[l], "observed": o, "count": len(lst)})
+    ctx.note_search("bcp47-subtags", len(reqs), len(reqs),
+                    rule="every language of OPEN_TYPE_LANGUAGES followed by region / script / variant / private-use subtags "
+                         "that no registry rule mentions (UN M.49 codes, private-use region and script codes): same language tags "
+                         "as the bare language")
+
 def wellknown_pairs():
     """the hand-checked pairs of `C18_wellknown` (single source: Props/C18.lean)"""
     src = open(os.path.join(vlib.LEAN, "RbModel", "Props", "C18.lean"), encoding="utf-8").read()
@@ -704,6 +734,7 @@ def run(ctx):
     stream_select(ctx, ctx.rng("select"), cases)
     search_registry(ctx, shim, rows)
     search_wellknown(ctx, shim)
+    search_bcp47(ctx, shim, rows)
     search_script_tags(ctx, shim, scripts)
     search_total(ctx, shim, ctx.rng("total"), rows, branch, ctx.budget(4000, 300000))
     search_shape(ctx, cases)
